@@ -438,8 +438,40 @@ func init() {
 		}
 		base := c05BaseList[[]int{1, 2, 3, 5, 6, 7, 8, 0, 4}[c.Free(nb, "base")]]
 		file := base.file
-		kind := c.Dev(13, "mutation-kind")
+		kind := c.Dev(14, "mutation-kind")
 		switch kind {
+		case 13: // a LARGE section (8000 bytes: bigger than the slack any read buffer leaves behind the file) that the reader
+			// has no use for stands ahead of 'responses', the table overstates the length of 'responses' by d and the
+			// index entry reaches d bytes past the end of the file.  A reader whose running section cursor goes stale
+			// while it steps over a section it ignores checks later sections against the wrong bound; with d larger
+			// than the buffer's spare capacity the out-of-file read is a slice-bounds panic instead of fabricated zeros.
+			ver := []string{"b2", "b1"}[c.Free(2, "version")]
+			sec := []string{"manifest", "zz-unknown", "critical", "primary"}[c.Free(4, "big section")]
+			const big = 8000
+			d := []uint64{1, 9, 600, 4096, big}[c.Free(5, "overstated by")]
+			at := c.Free(2, "big section first") // ahead of the index or between index and responses
+			r1 := c05Response(c05Ex{status: 200, headers: [][2]string{{"content-type", "text/plain"}}, body: []byte("only response")})
+			resp := append(refcbor.AppendHead(nil, refcbor.Array, 1), r1...)
+			val := [][]byte{refcbor.EncUint(1), refcbor.EncUint(uint64(len(r1)) + d)}
+			if ver == "b1" {
+				val = append([][]byte{refcbor.EncBytes(nil)}, val...)
+			}
+			index := refcbor.MustMap(refcbor.KV{K: refcbor.EncText("https://ex.test/"), V: refcbor.EncArray(val...)})
+			bigData := refcbor.EncText("https://ex.test/" + strings.Repeat("m", big-19))
+			if sec == "critical" {
+				bigData = refcbor.EncArray(refcbor.EncText(strings.Repeat("c", big-4)))
+			}
+			prefix := append(refcbor.EncBytes([]byte{0xf0, 0x9f, 0x8c, 0x90, 0xf0, 0x9f, 0x93, 0xa6}), refcbor.EncBytes([]byte(ver+"\x00\x00"))...)
+			if ver == "b1" {
+				prefix = append(prefix, refcbor.EncText("https://ex.test/")...)
+			}
+			names, data := []string{"index", sec, "responses"}, [][]byte{index, bigData, resp}
+			if at == 1 {
+				names, data = []string{sec, "index", "responses"}, [][]byte{bigData, index, resp}
+			}
+			lens := []uint64{uint64(len(data[0])), uint64(len(data[1])), uint64(len(resp)) + d}
+			out := refbx.RebuildLens(ver, prefix, names, lens, data)
+			return &c05Case{input: out, base: base, op: fmt.Sprintf("%s: 8000-byte section %q (position %d), 'responses' length and the index entry overstated by %d", ver, sec, 1-at, d)}
 		case 12: // a b1 index entry whose variants-value names so many axes that the number of possible variant keys (the
 			// product of the axis sizes) does not fit in 64 bits, with the value-array count a wrapped product would
 			// predict: 2^64 = 0 keys -> 1 item, 2^63 keys -> 2*2^63+1 = 1 item, 3*2^62 keys -> 2^63+1 items, 0 keys + one
@@ -766,7 +798,7 @@ func init() {
 	register(&mc.Property{
 		ID:          "C05",
 		Level:       "model_checking",
-		Rule:        "choice-tree enumeration of inputs to bundle.Read in watchdog-supervised workers: 7 (quick) / 9 (thorough) base bundles built by the reference encoder (b1/b2, 1-3 exchanges, primary/manifest/signatures sections, a b1 variants entry, two with the sections in an order the repository's writer never produces: manifest ahead of index in a b2 bundle, signatures/manifest ahead of index in b1; one whose responses section is a single response item at offset 0) x one structure-aware mutation: every length/offset/count head replaced by a well-delimited item of another type (null, false, negative integers, empty strings / array / map, a tag, a reserved head, a float), or re-encoded with the same value in a wider head / with the value moved into the high half of an 8-byte argument; every length/offset/count head of the reference's field map replaced by each of 9 boundary values (0, exact+-1, file size, 2^32, 2^63-1, 2^63, 2^64-1, exact+2^63; thorough: pairs of fields), truncation at every offset, every byte set to 8 values (quick: 00, ff, two bit flips, +1, '+', '-', space) / all 256 (thorough), offset/length pairs whose sum wraps around 2^64, an unknown section inserted consistently at every position (must be stepped over), the section table permuted / an entry duplicated / dropped, an unknown section listed without content, the ':status' value of a response replaced by 19 other strings ('200 ', '2000', '+20', the empty string, non-ASCII digits ...) with the bundle re-encoded consistently, and a b1 index entry whose variants-value announces 2^31 .. 2^65 possible keys (31..65 axes, or 32 four-valued / 16 sixteen-valued axes) with the value-array count a product wrapped to 32 or 64 bits would predict. Oracle: refbx.Extract (location-strict, encoding-lenient). Non-trivial = the reference produced a verdict the reader had to match (content equality, must-refuse location, must-accept unknown section); distinct by input hash.",
+		Rule:        "choice-tree enumeration of inputs to bundle.Read in watchdog-supervised workers: 7 (quick) / 9 (thorough) base bundles built by the reference encoder (b1/b2, 1-3 exchanges, primary/manifest/signatures sections, a b1 variants entry, two with the sections in an order the repository's writer never produces: manifest ahead of index in a b2 bundle, signatures/manifest ahead of index in b1; one whose responses section is a single response item at offset 0) x one structure-aware mutation: every length/offset/count head replaced by a well-delimited item of another type (null, false, negative integers, empty strings / array / map, a tag, a reserved head, a float), or re-encoded with the same value in a wider head / with the value moved into the high half of an 8-byte argument; every length/offset/count head of the reference's field map replaced by each of 9 boundary values (0, exact+-1, file size, 2^32, 2^63-1, 2^63, 2^64-1, exact+2^63; thorough: pairs of fields), truncation at every offset, every byte set to 8 values (quick: 00, ff, two bit flips, +1, '+', '-', space) / all 256 (thorough), offset/length pairs whose sum wraps around 2^64, an unknown section inserted consistently at every position (must be stepped over), the section table permuted / an entry duplicated / dropped, an unknown section listed without content, the ':status' value of a response replaced by 19 other strings ('200 ', '2000', '+20', the empty string, non-ASCII digits ...) with the bundle re-encoded consistently, and a b1 index entry whose variants-value announces 2^31 .. 2^65 possible keys (31..65 axes, or 32 four-valued / 16 sixteen-valued axes) with the value-array count a product wrapped to 32 or 64 bits would predict., and small bundles that carry an 8000-byte manifest / unknown / critical / primary section ahead of 'responses' while the section table and the index entry overstate the responses section by 1, 9, 600, 4096 or 8000 bytes. Oracle: refbx.Extract (location-strict, encoding-lenient). Non-trivial = the reference produced a verdict the reader had to match (content equality, must-refuse location, must-accept unknown section); distinct by input hash.",
 		Assumptions: []string{"refbx extracts at least what bundle.Read accepts (any well-formed CBOR head, any key order) and is exact about locations", "inputs the reference can extract but the reader refuses for its own stricter rules (URL syntax, header-name case, ASCII) are not judged", "header maps with duplicate names are not judged (the property does not say which value a reader returns)"},
 		Harnesses:   []*mc.Harness{h},
 		Guard: func(s map[string]*mc.Stats) error {
